@@ -96,7 +96,7 @@ OpNames == {"push", "insert", "pop", "remove", "split_to", "split_off", "truncat
 (* what the accessors of a chain value report *)
 ObsOf(c, n) == [ch |-> c, len |-> n, rem |-> n,
                 chunk |-> IF c = <<>> THEN <<>> ELSE c[1],
-                empty |-> (n = 0), accp |-> <<>>]
+                empty |-> (n = 0), drain |-> Flatten(c), accp |-> <<>>]
 
 NoObs == ObsOf(<<>>, 0)
 Unit == [k |-> "unit", b |-> <<>>]
@@ -151,8 +151,10 @@ Apply(o, c, n) == IF Mode = "pinned" THEN ApplyPinned(o, c, n) ELSE ApplyFixed(o
 (* ---------------------------------------------------------------------- *)
 (* the property: relational postcondition on OBSERVED values              *)
 (* ---------------------------------------------------------------------- *)
-(* An observation is a record [ch, len, rem, chunk, empty, accp]: the chunk list (AsRef<[CowBytes]>),
-   len(), Buf::remaining(), Buf::chunk(), is_empty(), and the list of accessors that panicked.   *)
+(* An observation is a record [ch, len, rem, chunk, empty, drain, accp]: the chunk list
+   (AsRef<[CowBytes]>), len(), Buf::remaining(), Buf::chunk(), is_empty(), the bytes a consumer reads
+   through Buf (chunk() / advance(chunk().len()) on a clone until has_remaining() is false), and the
+   list of accessors that panicked ("drain_stuck": the reading loop made no progress).            *)
 WF(o) ==
   /\ o.accp = <<>>                                   \* no accessor of a live value panics
   /\ NoEmpty(o.ch)                                   \* no chunk is empty
@@ -161,6 +163,7 @@ WF(o) ==
   /\ o.chunk = (IF o.ch = <<>> THEN <<>> ELSE o.ch[1])
   /\ (o.chunk = <<>>) <=> (o.len = 0)                \* Buf contract: chunk() is empty iff nothing remains
   /\ o.empty = (o.len = 0)
+  /\ o.drain = Flatten(o.ch)                         \* the remaining bytes, as read through Buf
 
 InRange(o, b) == InRangeFor(o, b.ch)
 
@@ -230,8 +233,15 @@ CowRet(op, X, p) ==
     [] op = "split_off" -> Suffix(X, p)
     [] op = "read"      -> Prefix(X, IF p <= Len(X) THEN p ELSE Len(X))
     [] OTHER -> <<>>
+(* std::io::Read for CowBytes is not part of the statement of C20 (it names accessors, comparisons, hash
+   and the positional operations).  It is observed all the same: the bytes handed out must be the
+   prefix and both variants must agree; whether the value was consumed (what Read on a plain &[u8]
+   does) is not demanded here but reported as a NOTE by the trace specification.                  *)
+ReadNotConsumed(op, X, p, e) == op = "read" /\ p > 0 /\ X # <<>> /\ e.out = "ok" /\ e.self = X
 CowOpPost(op, X, p, e) ==      \* e = [out, self, ret]
-  IF CowInRange(op, X, p)
+  IF op = "read"
+  THEN e.out = "ok" /\ e.ret = CowRet(op, X, p) /\ e.self \in {CowSelf(op, X, p), X}
+  ELSE IF CowInRange(op, X, p)
   THEN e.out = "ok" /\ e.self = CowSelf(op, X, p) /\ e.ret = CowRet(op, X, p)
   ELSE e.out = "panic" \/ (e.out = "ok" /\ e.self = X)
 
@@ -263,14 +273,12 @@ InitChains == {Fill(s, 0) : s \in Shapes(MaxChunks)}
 
 (* arguments at, inside and one past every boundary.  With chunk sizes <= 3 "every byte offset from 0
    to one past the end" is exactly: every chunk boundary, every offset inside a chunk, and end + 1. *)
-OpsAt(cc) ==
-  LET k == Len(cc)
-      L == SumLen(cc)
-  IN {Op("push", 0, x) : x \in Segs}
-     \cup {Op("insert", i, x) : i \in 0 .. k + 1, x \in Segs}
-     \cup {Op("pop", 0, <<>>), Op("clear", 0, <<>>)}
-     \cup {Op("remove", i, <<>>) : i \in 0 .. k}
-     \cup {Op(nm, at, <<>>) : nm \in {"split_to", "split_off", "truncate", "advance"}, at \in 0 .. L + 1}
+OpsPush(cc)   == {Op("push", 0, x) : x \in Segs}
+OpsInsert(cc) == {Op("insert", i, x) : i \in 0 .. Len(cc) + 1, x \in Segs}
+OpsPop(cc)    == {Op("pop", 0, <<>>)}
+OpsClear(cc)  == {Op("clear", 0, <<>>)}
+OpsRemove(cc) == {Op("remove", i, <<>>) : i \in 0 .. Len(cc)}
+OpsBytes(nm, cc) == {Op(nm, at, <<>>) : at \in 0 .. SumLen(cc) + 1}
 
 NoLast == [o |-> Op("none", 0, <<>>), b |-> <<>>, bn |-> 0, ret |-> Unit]
 
@@ -288,18 +296,19 @@ Step(o) ==
   /\ last' = [o |-> o, b |-> c, bn |-> n, ret |-> r.ret]
   /\ UNCHANGED init
 
-APush     == \E o \in OpsAt(c) : o.op = "push" /\ Step(o)
-AInsert   == \E o \in OpsAt(c) : o.op = "insert" /\ Step(o)
-APop      == \E o \in OpsAt(c) : o.op = "pop" /\ Step(o)
-ARemove   == \E o \in OpsAt(c) : o.op = "remove" /\ Step(o)
-ASplitTo  == \E o \in OpsAt(c) : o.op = "split_to" /\ Step(o)
-ASplitOff == \E o \in OpsAt(c) : o.op = "split_off" /\ Step(o)
-ATruncate == \E o \in OpsAt(c) : o.op = "truncate" /\ Step(o)
-AAdvance  == \E o \in OpsAt(c) : o.op = "advance" /\ Step(o)
-AClear    == \E o \in OpsAt(c) : o.op = "clear" /\ Step(o)
+More == Len(hist) < Depth
 
-Next == /\ Len(hist) < Depth
-        /\ \/ APush \/ AInsert \/ APop \/ ARemove \/ ASplitTo \/ ASplitOff \/ ATruncate \/ AAdvance \/ AClear
+APush     == More /\ \E o \in OpsPush(c) : Step(o)
+AInsert   == More /\ \E o \in OpsInsert(c) : Step(o)
+APop      == More /\ \E o \in OpsPop(c) : Step(o)
+ARemove   == More /\ \E o \in OpsRemove(c) : Step(o)
+ASplitTo  == More /\ \E o \in OpsBytes("split_to", c) : Step(o)
+ASplitOff == More /\ \E o \in OpsBytes("split_off", c) : Step(o)
+ATruncate == More /\ \E o \in OpsBytes("truncate", c) : Step(o)
+AAdvance  == More /\ \E o \in OpsBytes("advance", c) : Step(o)
+AClear    == More /\ \E o \in OpsClear(c) : Step(o)
+
+Next == APush \/ AInsert \/ APop \/ ARemove \/ ASplitTo \/ ASplitOff \/ ATruncate \/ AAdvance \/ AClear
 
 Spec == Init /\ [][Next]_vars
 
